@@ -142,9 +142,10 @@ class Tree:
             json.dump(self.nodes, f)
 
 
-def run_scripted(obj, script, qgrid=None, projector=project, call=None, min_p=0.0):
+def run_scripted(obj, script, qgrid=None, projector=project, call=None, min_p=0.0, forced=None):
     rng = ScriptedRNG(script, qgrid, min_p=min_p)
     Tap.current = rng
+    Tap.forced = list(forced) if forced is not None else None
     try:
         mg = call(obj, rng) if call else obj.generate(rng=rng)
         obs = projector(mg)
@@ -154,6 +155,7 @@ def run_scripted(obj, script, qgrid=None, projector=project, call=None, min_p=0.
         obs = {"kind": "error", "exc": type(exc).__name__, "msg": str(exc)[:160]}
     finally:
         Tap.current = None
+        Tap.forced = None
     return merge_events(rng.events), obs
 
 
